@@ -227,6 +227,12 @@ type cond struct {
 	VB    *bool    `json:"vb,omitempty"`
 	VL    []string `json:"vl,omitempty"`
 	Text  bool     `json:"text,omitempty"` // hand the value to query.Where in its textual form
+	// As selects another operand representation for int / float operators (everything
+	// newIntCondition / newFloatCondition accept): a Go type ("int", "int8", "int16",
+	// "int32", "uint", "uint8", "uint16", "uint32", "float32") or a decimal string shape
+	// ("pad" = zero-padded like "010" / "-007", "plus" = explicit sign "+5", "exp" =
+	// float in exponent notation). Strings are base-10 strconv input: "010" is ten.
+	As string `json:"as,omitempty"`
 }
 
 func (q *qSpec) String() string {
